@@ -159,6 +159,7 @@ def r06_2(ctx):
     op_list_completeness(ctx)
     condition_effects_are_sequenced(ctx)
     pending_effect_placement(ctx)
+    temporary_name_is_its_key(ctx)
     # nothing pending / nothing referenced -> the effect itself
     r = Runner(idx, keep_real=("chk_hybrid_dep",))
     def args0():
@@ -370,6 +371,40 @@ def r06_6(ctx):
             ok = isinstance(nm, str) and nm.endswith(str(count)) and not nm[: -len(str(count))][-1:].isdigit() and box["h"].fields.get("hybrid_op_count") == count + 1
             ctx.check(f"temporary name for counter value {count}", ok, f"<prefix>{count}, counter afterwards {count + 1}", f"name {nm}, counter afterwards {box['h'].fields.get('hybrid_op_count')}", fn_where(idx, fi))
     ctx.check("temporary names of different counter values differ", len(set(seen)) == len(seen), "pairwise distinct", str(seen), fn_where(idx, fi), nontrivial=False)
+
+
+def temporary_name_is_its_key(ctx):
+    """the pending effect of an operation is found again by the NAME of its temporary: whatever prefix the transformer was given (a routine
+    body's transformer gets its own after construction), the name under which the temporary ends up registered is the key of the pending
+    entry.  resolve_hybrid and add_op are both interpreted; every other attribute of the transformer holds what the constructor put there
+    (unknown to the run: a value derived from the prefix at construction time may be stale)."""
+    idx = get_index(ctx.env)
+    fi = idx.func("RZILTransformer.resolve_hybrid")
+    for prefix in ("h_tmp", "h_tmp_clz32_", "h_tmp_sat_inc_2_", "t"):
+        for order in ("EXEC_THEN_SET_VAL", "SET_VAL_THEN_EXEC"):
+            r = Runner(idx, keep_real=("resolve_hybrid", "add_op"), node_bases=("Effect",))
+
+            def once(interp, prefix=prefix, order=order):
+                r.nodes = []
+                h = AObj("ILOpsHolder", {"op_count": 5, "read_ops": {}, "exec_ops": {}, "write_ops": {}, "hybrid_effect_dict": {}, "hybrid_op_count": 3}, label="holder", opaque=False)
+                s_ = r.mk_self(il_ops_holder=h, hybrid_tmp_prefix=prefix, inlined_pure_classes=(), parameters={})
+                r.self_obj = s_
+                hyb = AObj("Hybrid", {"value_type": mk_vt("th", True, 32), "seq_order": hyb_order(order), "references_set": set()}, label="hybrid", opaque=True)
+                v = interp.call_function(fi, [hyb], None, self_obj=s_)
+                return [v, h]
+            outs = Interp(idx, call_hook=r.hook).explore(once, max_runs=256)
+            good = [o for o in outs if o.kind == "return"]
+            bad = []
+            for o in good:
+                v, h = o.value
+                nm = v.fields.get("name") if isinstance(v, AObj) else None
+                keys = [to_text(k) for k in h.fields["hybrid_effect_dict"]]
+                regs = [to_text(k) for k in h.fields["read_ops"]]
+                if not (isinstance(nm, str) and keys == [nm] and nm in regs):
+                    bad.append(f"temporary named {to_text(nm)}, registered {regs}, pending entry under {keys}")
+            ctx.check(f"resolve_hybrid + add_op, prefix {prefix!r}, {order}: the temporary is registered under the key of its pending entry", bool(good) and not bad,
+                      "one name: LocalVar name = key of hybrid_effect_dict = key of read_ops", "; ".join(sorted(set(bad))[:2]) or ("no returning path" if not good else "ok"), fn_where(idx, fi),
+                      nontrivial=(prefix != "h_tmp"))
 
 
 MUST_USE = {"chk_hybrid_dep", "resolve_hybrid", "init_a_cast", "promotion_cast", "cast_operands", "add_op"}
